@@ -1,7 +1,7 @@
 """Profiles (TLC model configurations) and per-property checks."""
 from __future__ import annotations
 
-MODEL_PROPS = ["ObsPure", "HeapAppendOnly", "RowPreserving", "MutateFrame", "FilterSliceSubseq", "SummarizeRows", "ArrangePermutes"]
+MODEL_PROPS = ["MetaAgree", "ObsPure", "HeapAppendOnly", "RowPreserving", "MutateFrame", "FilterSliceSubseq", "SummarizeRows", "ArrangePermutes"]
 
 # index into SrcTables (1-based): 1 t1, 2 t2 (join partner), 3 t3 (union partner), 4 t4 empty, 5 t5 single row,
 # 6, 7: seed-generated
@@ -188,8 +188,12 @@ CHECKS = {
     ),
     "C11": dict(
         level="model_checking",
-        clauses={"meta"},
-        phases=dict(quick=[dict(profile="core2")], thorough=[dict(profile="core2"), dict(profile="core3")]),
+        clauses={"meta", "trace-names", "trace-group", "trace-export-columns", "trace-unknown-input", "trace-sql-limit",
+                 "trace-sql-filtered", "trace-sql-grouped"},
+        phases=dict(quick=[dict(profile="core2"), dict(profile="join2"), dict(profile="union2"),
+                           dict(kind="tracemeta", profiles=[("core2", 400), ("join2", 300), ("agg3", 300)])],
+                    thorough=[dict(profile="core3"), dict(profile="join3"), dict(profile="union3"), dict(profile="agg3"), dict(profile="reroot3"),
+                              dict(kind="tracemeta", profiles=[("core3", 3000), ("join3", 3000), ("agg3", 2000), ("wins3", 2000), ("reroot3", 2000)])]),
     ),
 }
 
